@@ -421,7 +421,14 @@ pub fn gen_input(t: &mut Tape) -> Vec<u8> {
                 ]))
                 .as_bytes(),
             ),
-            7 => out.extend_from_slice(format!("trailing space {} \t", i).as_bytes()),
+            7 => out.extend_from_slice(
+                match t.draw(3) {
+                    0 => format!("trailing space {} \t", i),
+                    1 => format!("nul\0and\u{7f}del{}", i),
+                    _ => format!("\u{feff}bom and \u{2028} separator {}", i),
+                }
+                .as_bytes(),
+            ),
             4 => {
                 let len = 20 + t.draw(200) as usize;
                 for k in 0..len {
